@@ -1,4 +1,5 @@
 import Solvor.Gen.Kernels
+import Solvor.Gen.MstConsts
 /-!
 Mst: executable models (no Mathlib imports) for property C13.
 
@@ -7,7 +8,8 @@ Mst: executable models (no Mathlib imports) for property C13.
                 node (`union` relabels one class).  This is the model the theorems talk about.
 * `kruskalUF` – the same loop over a literal mirror of `solvor.utils.UnionFind`
                 (parent / rank arrays, recursive `find` with path compression, union by rank).
-                The driver evaluates both on every input and reports whether they agree.
+                `kruskalUF_eq` (Theorems.lean) proves it returns exactly what `kruskal` returns;
+                the driver still evaluates both on every input.
 * `prim`      – mirror of `solvor.mst.prim` (heap as "pop the least `(weight, counter)`";
                 the tuples pushed are `(weight, counter, u, v)` and `counter` is unique, so the
                 order never looks at `u`/`v`).
@@ -55,6 +57,11 @@ structure KState where
   total : Int
   iters : Nat
 
+/-- the `1` of `if len(mst_edges) == n_nodes - 1: break`, read from the source on every run -/
+def breakOff : Nat := Solvor.Gen.Mst.kruskalBreakOffset.toNat
+/-- the `1` of `if len(mst_edges) < n_nodes - 1:` (disconnected input), read from the source -/
+def shortOff : Nat := Solvor.Gen.Mst.kruskalShortOffset.toNat
+
 /-- the `for u, v, w in sorted_edges` loop, `break` included -/
 def kloop (n : Nat) : List Edge → KState → KState
   | [], s => s
@@ -62,7 +69,7 @@ def kloop (n : Nat) : List Edge → KState → KState
     if s.lab.f e.u = s.lab.f e.v then kloop n es { s with iters := s.iters + 1 }
     else
       let s' : KState := ⟨union s.lab e.u e.v, s.acc ++ [e], s.total + e.w, s.iters + 1⟩
-      if s'.acc.length + 1 = n then s' else kloop n es s'
+      if s'.acc.length + breakOff = n then s' else kloop n es s'
 
 structure Result where
   status : Status
@@ -86,7 +93,7 @@ def kinit : KState := ⟨Lab.id, [], 0, 0⟩
 
 /-- what `kruskal` returns from the state the loop ended in -/
 def kfinish (n : Nat) (m : Nat) (allowForest : Bool) (acc : List Edge) (total : Int) (iters : Nat) : Result :=
-  if acc.length + 1 < n then
+  if acc.length + shortOff < n then
     if allowForest then ⟨.FEASIBLE, some acc, some total, iters, m⟩
     else ⟨.INFEASIBLE, none, none, iters, m⟩
   else ⟨.OPTIMAL, some acc, some total, iters, m⟩
@@ -114,16 +121,19 @@ def UF.find : Nat → UF → Nat → UF × Nat
       ({ uf' with parent := uf'.parent.set x r }, r)
     else (uf, p)
 
-/-- `union`: returns the new structure and whether two classes were merged -/
+/-- hang the root `c` under the root `p` (`parent[c] = p`; equal ranks: `rank[p] += 1`) -/
+def UF.link (uf : UF) (c p : Nat) : UF :=
+  ⟨uf.parent.set c p,
+   if uf.rank.getD p 0 = uf.rank.getD c 0 then uf.rank.set p (uf.rank.getD p 0 + 1) else uf.rank⟩
+
+/-- `union`: returns the new structure and whether two classes were merged
+(`if rank[rx] < rank[ry]: rx, ry = ry, rx` is written as the two orders of `link`) -/
 def UF.union (fuel : Nat) (uf : UF) (x y : Nat) : UF × Bool :=
-  let (uf1, rx) := UF.find fuel uf x
-  let (uf2, ry) := UF.find fuel uf1 y
-  if rx = ry then (uf2, false)
-  else
-    let (rx, ry) := if uf2.rank.getD rx 0 < uf2.rank.getD ry 0 then (ry, rx) else (rx, ry)
-    let par := uf2.parent.set ry rx
-    let rk := if uf2.rank.getD rx 0 = uf2.rank.getD ry 0 then uf2.rank.set rx (uf2.rank.getD rx 0 + 1) else uf2.rank
-    (⟨par, rk⟩, true)
+  let f1 := UF.find fuel uf x
+  let f2 := UF.find fuel f1.1 y
+  if f1.2 = f2.2 then (f2.1, false)
+  else if f2.1.rank.getD f1.2 0 < f2.1.rank.getD f2.2 0 then (f2.1.link f1.2 f2.2, true)
+  else (f2.1.link f2.2 f1.2, true)
 
 structure UState where
   uf : UF
@@ -138,7 +148,7 @@ def uloop (n : Nat) : List Edge → UState → UState
     if !merged then uloop n es { s with uf := uf', iters := s.iters + 1 }
     else
       let s' : UState := ⟨uf', s.acc ++ [e], s.total + e.w, s.iters + 1⟩
-      if s'.acc.length + 1 = n then s' else uloop n es s'
+      if s'.acc.length + breakOff = n then s' else uloop n es s'
 
 def kruskalUF (n : Nat) (E : List Edge) (allowForest : Bool) : Result :=
   let s := uloop n (sortEdges E) ⟨UF.init n, [], 0, 0⟩
